@@ -320,7 +320,52 @@ pub fn c01_drain_all<const N: usize>() {
     finish(m);
 }
 
+/// C06: every element reference handed out points inside the bytes of the container value itself
+pub fn c06_refs<const N: usize>() {
+    tok::reset();
+    let (mut m, md) = any_map::<N>();
+    let base = &m as *const micromap::Map<Tok, Tok, N>;
+    let k = vf::any_u8();
+    for (a, b) in m.iter() { vf::check(vf::ptr_within(a as *const Tok, base) && vf::ptr_within(b as *const Tok, base), 501); }
+    for a in m.keys() { vf::check(vf::ptr_within(a as *const Tok, base), 501); }
+    for b in m.values() { vf::check(vf::ptr_within(b as *const Tok, base), 501); }
+    for (a, b) in m.iter_mut() { vf::check(vf::ptr_within(a as *const Tok, base) && vf::ptr_within(b as *const Tok, base), 501); }
+    for b in m.values_mut() { vf::check(vf::ptr_within(b as *const Tok, base), 501); }
+    if md.n < N || md.has(k) {
+        vf::reach(1);
+        let r = m.entry(Tok::new(k)).or_insert(Tok::new(1));
+        vf::check(vf::ptr_within(r as *const Tok, base), 501);
+        match m.entry(Tok::new(k)) {
+            micromap::Entry::Occupied(mut o) => {
+                vf::check(vf::ptr_within(o.key() as *const Tok, base) && vf::ptr_within(o.get() as *const Tok, base), 501);
+                vf::check(vf::ptr_within(o.get_mut() as *const Tok, base), 501);
+                vf::check(vf::ptr_within(o.into_mut() as *const Tok, base), 501);
+            }
+            micromap::Entry::Vacant(_) => vf::check(false, 1101),
+        }
+        vf::check(vf::ptr_within(&m[&BKey::free(k)] as *const Tok, base), 501);
+    } else { vf::reach(2); }
+    let (q1, q2) = (BKey::free(k), BKey::free(k.wrapping_add(1)));
+    for r in m.get_disjoint_mut([&q1, &q2]) { if let Some(r) = r { vf::check(vf::ptr_within(r as *const Tok, base), 501); } }
+    finish(m);
+}
+
+pub fn c06_refs_set<const N: usize>() {
+    tok::reset();
+    let k = vf::any_u8();
+    // Set: get / iter / set-algebra items
+    let (s, sd) = any_set::<N>();
+    let sb = &s as *const micromap::Set<Tok, N>;
+    if let Some(r) = s.get(&BKey::free(k)) { vf::check(vf::ptr_within(r as *const Tok, sb) && sd.has(k), 501); }
+    for r in s.iter() { vf::check(vf::ptr_within(r as *const Tok, sb), 501); }
+    if sd.n > 0 { vf::reach(1); } else { vf::reach(2); }
+    drop(s);
+    vf::check(tok::balanced(), 302);
+}
+
 harnesses! {
+    c06_refs: [1] [2] [3];
+    c06_refs_set: [1] [2] [3];
     c01_insert: [0] [1] [2] [3];
     c01_insert_kv: [0] [1] [2] [3];
     c01_checked_insert: [0] [1] [2] [3];
@@ -332,6 +377,8 @@ harnesses! {
     c01_clear: [0] [1] [2] [3];
     c01_drain_all: [0] [1] [2] [3];
     @deep
+    c06_refs: [4];
+    c06_refs_set: [4];
     c01_insert: [4] [5];
     c01_insert_kv: [4] [5];
     c01_checked_insert: [4] [5];
